@@ -84,3 +84,142 @@ func stress(o *vcoq.Out, r *vcoq.Rand, base int64) {
 			Key: term, NonTrivial: true, Tags: tags})
 	}
 }
+
+// Gate-free stress for C03: writers on all cores and subscribers opened while they run; every
+// subscriber's events are folded and compared with the final Get / List (Conc/Judge.v c03_pred, no model,
+// no schedule).  With publications ordered by the turnstile this must hold in every run.
+func stress03(o *vcoq.Out, r *vcoq.Rand, base int64, histories int) {
+	for k := 0; k < histories; k++ {
+		onValue := r.Chance(50)
+		sc := &scenario{vinit: &vinit0, cinit: collInit(r.Bool())}
+		nw := 2 + r.Intn(3)
+		per := 2 + r.Intn(3)
+		groups := make([][]int, nw) // the calls each writer goroutine issues, one after the other
+		for g := 0; g < nw; g++ {
+			for j := 0; j < per; j++ {
+				var c *fcall
+				if onValue {
+					c = mkCall(valueTmpls[1+r.Intn(len(valueTmpls)-1)], len(sc.prog), base) // every template but the CAS (mostly failing)
+				} else {
+					c = mkCall(collTmpls[r.Intn(len(collTmpls))], len(sc.prog), base)
+				}
+				groups[g] = append(groups[g], len(sc.prog))
+				sc.prog = append(sc.prog, c)
+			}
+		}
+		ns := 1 + r.Intn(2)
+		var subs []int
+		for i := 0; i < ns; i++ {
+			ro := roVariants[r.Intn(len(roVariants))]
+			var c *fcall
+			switch {
+			case onValue:
+				c = subCall(true, ro)
+			case r.Chance(25):
+				c = &fcall{kind: kSubID, id: "a", ro: &ro, name: "pull-id"}
+			default:
+				c = subCall(false, ro)
+			}
+			subs = append(subs, len(sc.prog))
+			sc.prog = append(sc.prog, c)
+		}
+		spin := make([]int, len(subs))
+		for i := range spin {
+			spin[i] = r.Intn(4000)
+		}
+		w := newWorld(sc)
+		results := make([]fout, len(sc.prog))
+		start := make(chan struct{})
+		var wg sync.WaitGroup
+		for g := range groups {
+			g := g
+			wg.Add(1)
+			go func() {
+				defer wg.Done()
+				<-start
+				for _, t := range groups[g] {
+					results[t] = w.exec(t, sc.prog[t])
+				}
+			}()
+		}
+		var sink atomic.Int64
+		for i, t := range subs {
+			i, t := i, t
+			wg.Add(1)
+			go func() {
+				defer wg.Done()
+				<-start
+				for x := 0; x < spin[i]; x++ { // open the subscription somewhere among the writes
+					sink.Add(1)
+				}
+				results[t] = w.exec(t, sc.prog[t])
+			}()
+		}
+		close(start)
+		if err := bounded("a free-running program", wg.Wait); err != nil {
+			o.Directs = append(o.Directs, vcoq.Direct{What: err.Error(), Class: "gate-timeout", Replay: map[string]any{"program": jsProg(sc), "writer_goroutines": groups}})
+			w.cancel()
+			return // its goroutines stay blocked: no further programs
+		}
+		rr := &runResult{results: results}
+		// PullID returns at once and opens its inner Pull on a goroutine of its own: wait until that has
+		// happened (every goroutine at rest), or the subscription would begin after the final read
+		if err := settle(); err != nil {
+			rr.err = err
+		} else {
+			w.finish(rr)
+		}
+		if rr.err != nil {
+			o.Directs = append(o.Directs, vcoq.Direct{What: "free-running program: " + rr.err.Error(), Class: "subscriber-cut-off",
+				Replay: map[string]any{"program": jsProg(sc)}})
+			continue
+		}
+		prog := make([]string, len(sc.prog))
+		for i, c := range sc.prog {
+			prog[i] = c.coq()
+		}
+		res := make([]string, len(results))
+		jres := []any{}
+		for i, x := range results {
+			res[i] = coqOut(x)
+			jres = append(jres, map[string]any{"msg": jsMsg(x.msg), "code": x.code})
+		}
+		cinit := make([]string, len(sc.cinit))
+		for i, it := range sc.cinit {
+			cinit[i] = vcoq.Pair(vcoq.Pair(vcoq.Str(it.id), coqMsg(it.m)), vcoq.Z(it.t))
+		}
+		var vs, cs []string
+		jvs, jcs := map[string]any{}, map[string]any{}
+		for _, t := range sortedKeys(rr.vstreams) {
+			it := []string{}
+			js := []any{}
+			for _, e := range rr.vstreams[t] {
+				it = append(it, coqOVChange(e))
+				js = append(js, jsOVChange(e))
+			}
+			vs = append(vs, vcoq.Pair(vcoq.Nat(t), vcoq.List(it)))
+			jvs[fmt.Sprint(t)] = js
+		}
+		for _, t := range sortedKeysC(rr.cstreams) {
+			it := []string{}
+			js := []any{}
+			for _, e := range rr.cstreams[t] {
+				it = append(it, coqOChange(e))
+				js = append(js, jsOChange(e))
+			}
+			cs = append(cs, vcoq.Pair(vcoq.Nat(t), vcoq.List(it)))
+			jcs[fmt.Sprint(t)] = js
+		}
+		term := vcoq.App("CaseFree", "None", coqOptMsg(sc.vinit), vcoq.List(cinit), vcoq.List(prog), vcoq.List(res),
+			coqOptMsg(rr.finalV), coqKVs(rr.finalC), vcoq.List(vs), vcoq.List(cs), coqNats(rr.closed))
+		res2 := "collection"
+		if onValue {
+			res2 = "value"
+		}
+		o.Add(vcoq.Case{Coq: term,
+			JSON: map[string]any{"free_running": true, "program": jsProg(sc), "writer_goroutines": groups, "results": jres,
+				"final_get": jsMsg(rr.finalV), "final_list": jsKVs(rr.finalC), "value_streams": jvs, "collection_streams": jcs, "pullid_closed": rr.closed},
+			Key: term, NonTrivial: true,
+			Tags: []string{"free-running", fmt.Sprintf("free-running:%dx%d+%dsubs", nw, per, ns), "free-running:" + res2}})
+	}
+}
